@@ -38,6 +38,11 @@ func evalC06(e *Eval) {
 		}
 		ans = append(ans, an)
 	}
+	// the command writes the Dart files last, after the other targets asked for the same source file
+	// (they share its analysis): the Dart output examined is the one produced in that position
+	for _, t := range []string{prog.TTS, prog.TSQL} {
+		e.L.RunTarget(t, ans)
+	}
 	out, pi := e.L.RunTarget(prog.TDart, ans)
 	if pi != nil {
 		e.Res.Outcome = "dart refused: " + trunc(pi.Msg, 40)
